@@ -403,6 +403,19 @@ func (a *BigInt) M__ipow__(other, modulus Object) (Object, error) {
 	return a.M__pow__(other, modulus)
 }
 
+// Left shift a << shift
+//
+// Returns a MemoryError if the result has more bits than can be
+// allocated
+func bigLsh(a *big.Int, shift uint) (res Object, err error) {
+	defer func() {
+		if r := recover(); r != nil {
+			err = ExceptionNewf(MemoryError, "cannot allocate an int shifted left by %d bits", shift)
+		}
+	}()
+	return (*BigInt)(new(big.Int).Lsh(a, shift)).MaybeInt(), nil
+}
+
 func (a *BigInt) M__lshift__(other Object) (Object, error) {
 	if b, ok := ConvertToBigInt(other); ok {
 		bb, err := b.GoInt()
@@ -412,7 +425,7 @@ func (a *BigInt) M__lshift__(other Object) (Object, error) {
 		if bb < 0 {
 			return nil, negativeShiftCount
 		}
-		return (*BigInt)(new(big.Int).Lsh((*big.Int)(a), uint(bb))).MaybeInt(), nil
+		return bigLsh((*big.Int)(a), uint(bb))
 	}
 	return NotImplemented, nil
 }
@@ -426,7 +439,7 @@ func (a *BigInt) M__rlshift__(other Object) (Object, error) {
 		if aa < 0 {
 			return nil, negativeShiftCount
 		}
-		return (*BigInt)(new(big.Int).Lsh((*big.Int)(b), uint(aa))).MaybeInt(), nil
+		return bigLsh((*big.Int)(b), uint(aa))
 	}
 	return NotImplemented, nil
 }
